@@ -258,6 +258,18 @@ func fpRun(t *testing.T, r *vh.Report, prop string) {
 		}
 		r.Max("max_near_copy_levels_per_shape", int64(len(srcs)))
 	}
+	// near copies that differ from the shape ONLY in a literal the default policy abstracts (same
+	// fingerprint under that policy, same structure): a string replaced, a large integer replaced
+	for _, shape := range []string{"strings", "bigconst"} {
+		for _, v := range progfam.Cosmetic(fpBase(shape)) {
+			if (v.Op == "R8-string-literal" || v.Op == "R9-int-literal") && v.Site == -1 && progfam.Compiles(v.Src) == nil {
+				tag := fmt.Sprintf("~lit~%s", shape)
+				nearSrc[tag] = v.Src
+				addedPool = append(addedPool, []string{tag})
+				break
+			}
+		}
+	}
 	caseIdx := 0
 	for ci, cfg := range configs {
 		for code := 0; code < 256; code++ {
@@ -603,6 +615,37 @@ func TestVerifC19(t *testing.T) {
 		}
 		if !found || out.Summary.RenamedFunctions != 1 || out.Summary.Added != 0 || out.Summary.Removed != 0 {
 			r.Violate("rename/oversized-function", fmt.Sprintf("a function with 2600 if-statements (beyond the block-count guard) whose only change is its name Dispatch -> Route is not reported as one rename: entries %v, summary %+v", seen, out.Summary), nil)
+		}
+		// a renamed function next to an ADDED near copy that differs only in a literal the default
+		// policy abstracts (same fingerprint, same structure) and whose name sorts first
+		for _, lc := range []struct{ id, body, alt string }{
+			{"string-literal", "\tif a > 3 {\n\t\treturn \"hello\"\n\t}\n\treturn \"x\"\n", "\tif a > 3 {\n\t\treturn \"world\"\n\t}\n\treturn \"x\"\n"},
+			{"string-literal-other-length", "\tif a > 3 {\n\t\treturn \"hello\"\n\t}\n\treturn \"x\"\n", "\tif a > 3 {\n\t\treturn \"hello, world\"\n\t}\n\treturn \"x\"\n"},
+		} {
+			ld := filepath.Join(scratch, "litcopy-"+lc.id)
+			os.MkdirAll(filepath.Join(ld, "o"), 0o755)
+			os.MkdirAll(filepath.Join(ld, "n"), 0o755)
+			lo, ln := filepath.Join(ld, "o", "f.go"), filepath.Join(ld, "n", "f.go")
+			os.WriteFile(lo, []byte("package p\n\nfunc target(a int) string {\n"+lc.body+"}\n"), 0o644)
+			os.WriteFile(ln, []byte("package p\n\nfunc zRenamed(a int) string {\n"+lc.body+"}\n\nfunc aCopy(a int) string {\n"+lc.alt+"}\n"), 0o644)
+			lout, lerr := ComputeDiff(RealFileSystem{}, lo, ln)
+			r.Eval()
+			r.Nontrivial("literal-near-copy/" + lc.id)
+			if lerr != nil {
+				r.Fail("ComputeDiff literal near copy: %v", lerr)
+				return
+			}
+			ok := false
+			var seenL []string
+			for _, fd := range lout.Functions {
+				seenL = append(seenL, fd.Function+":"+fd.Status)
+				if fd.Function == "target → zRenamed" && fd.Status == "renamed" {
+					ok = true
+				}
+			}
+			if !ok {
+				r.Violate("rename/literal-near-copy/"+lc.id, fmt.Sprintf("old file: target; new file: zRenamed (the same body, renamed) and aCopy (one string literal changed): the rename is not reported as target → zRenamed: %v", seenL), nil)
+			}
 		}
 		for _, tm := range out.TopologyMatches {
 			if tm.OldFunction == "Dispatch" && tm.NewFunction == "Route" && tm.Similarity != 1 {
